@@ -153,11 +153,45 @@ def task_fit(p, cells, variant, rational):
 task_fit.contract_fn = "curves.Curve.fit_points"
 
 
+# --------------------------------------------------------------------------------------
+# engine B: the smallest spaces with DEFAULT nodes: len(points) == npts on one-span curves of degree 0, 1, 2 (a single point on Curve([0, 1]) included: D48)
+# --------------------------------------------------------------------------------------
+def task_smallest_spaces():
+    from ..report import FAILED, PROVED, ob
+    fn = "curves.Curve.fit_points"
+    out = []
+    for label, U, pts in (("p0-one-span-Fraction", [F(0), F(1)], [F(5)]), ("p0-one-span-float", [0.0, 1.0], [5.0]), ("p0-two-spans", [F(0), F(1), F(3)], [F(4), F(7)]),
+                          ("p1-one-span", [F(0), F(0), F(2), F(2)], [F(1), F(3)]), ("p2-one-span", [F(-1)] * 3 + [F(1)] * 3, [F(1), F(0), F(4)])):
+        bad = None
+        try:
+            c = curves.Curve(list(U))
+            c.fit_points(list(pts))
+            if len(c.ctrlpoints) != len(pts):
+                bad = "%d control points" % len(c.ctrlpoints)
+            else:
+                # interpolation at the default nodes: equally spaced, both ends included (the middle of the interval for a single point)
+                n = len(pts)
+                a, b = U[0], U[-1]
+                nodes = [a + (b - a) * F(k, n - 1) for k in range(n)] if n > 1 else [(a + b) / 2]
+                for z, want in zip(nodes, pts):
+                    if abs(F(c(z)) - F(want)) > F(1, 10 ** 12):
+                        bad = "the fitted curve is %s at node %s, the point is %s" % (c(z), z, want)
+                        break
+        except Exception as e:
+            bad = "%s: %s" % (type(e).__name__, str(e)[:100])
+        out.append(ob("%s:smallest-spaces-default-nodes[%s]" % (fn, label), fn, FAILED if bad else PROVED, "B", "concrete", 0.0,
+                      bad or "len(points) == npts: every point is interpolated at the default nodes", dict(kind="c12.small", label=label) if bad else None))
+    return out + [{"_stats": dict(cases=len(out))}]
+
+
+task_smallest_spaces.contract_fn = "curves.Curve.fit_points"
+
+
 def tasks(tier, seed):
     from ..pyvc.driver import verify
     from ..contracts import curvesv
     # shape level, all curves / point lists / node lists: npts control points on the same knot vector, weights untouched, every refusal atomic
-    ts = curvesv.tasks_for(("Curve.fit_points",))
+    ts = curvesv.tasks_for(("Curve.fit_points",)) + [(task_smallest_spaces, ())]
     for p, cells in shapes(tier):
         for variant in ((0, 1) if tier == "quick" else (0, 1, 2)):
             ts.append((task_fit, (p, cells, variant, False)))
@@ -168,6 +202,9 @@ def tasks(tier, seed):
 
 def replay(o):
     w = o["witness"]
+    if w.get("kind") == "c12.small":
+        r = [x for x in task_smallest_spaces() if "id" in x and x["id"].endswith("[%s]" % w["label"])][0]
+        return r["status"] == "failed", "every point interpolated at the default nodes", r["detail"]
     p, cells, variant = w["p"], tuple(w["cells"]), w["variant"]
     U = vec(p, cells, variant)
     n = len(U) - p - 1
